@@ -6,12 +6,12 @@
    and WriteTo's returned count = |encode_X s|. Hence ReadFrom consumes exactly the writer's
    bytes, returns that count, reconstructs the identical state (so Equals and every query
    agree), and structures written back to back decode one after the other.
-   Proved: Count-Min, HyperLogLog, bucket + cuckoo filter, Top-K with a full heap.
-   REFUTED: Top-K with fewer than k tracked elements (WriteTo panics; known finding).
-   Bloom: the byte-level stream and counts are tied by correspondence; the bit-packing round
-   trip of the third-party bitset is not yet a theorem (partial). *)
+   Proved: Count-Min, HyperLogLog, bucket + cuckoo filter, Top-K with a full heap, and the Bloom
+   filter including the bit packing of the third-party bitset (bit i lives in word i/64 at
+   position i mod 64; any bit list of any length comes back exactly).
+   REFUTED: Top-K with fewer than k tracked elements (WriteTo panics; known finding). *)
 From GX.Model Require Import Base CMS Bloom HLL Cuckoo Heap TopK Codec.
-From GX.Proofs Require Import ListLemmas CodecProofs.
+From GX.Proofs Require Import ListLemmas CodecProofs BloomCodec.
 
 Theorem C11_cms_roundtrip : forall s rest, cms_wf s ->
   exists img, enc_cms s = Ok img /\ dec_cms (img ++ rest) = Ok (s, N.of_nat (length img), rest) /\
@@ -55,9 +55,26 @@ Qed.
 Example C11_premises_hold : cms_wf (mkCms 2 2 5 [[1; 2]; [3; 4]]).
 Proof. unfold cms_wf, small64, two64; cbn. repeat split; try reflexivity; repeat constructor. Qed.
 
+Theorem C11_bloom_roundtrip : forall f rest, bloom_cwf f ->
+  dec_bloom (enc_bloom f ++ rest) = Ok (f, bloom_write_ret f, rest) /\
+  bloom_write_ret f = N.of_nat (length (enc_bloom f)).
+Proof. exact bloom_roundtrip. Qed.
+
+(* the bitset alone: every bit list, of every length below 2^64 *)
+Theorem C11_bitset_roundtrip : forall bits rest, N.of_nat (length bits) < two64 ->
+  dec_bitset (enc_bitset bits ++ rest) = Ok (bits, 8 + 8 * words_needed (N.of_nat (length bits)), rest).
+Proof. exact bitset_roundtrip. Qed.
+
+(* non-vacuity: a 70-bit filter (two words, the second partially used) *)
+Example C11_bloom_premises_hold :
+  bloom_cwf (mkBloom 70 3 70 (repeat true 3 ++ repeat false 60 ++ repeat true 7)).
+Proof. unfold bloom_cwf; simpl. repeat split; reflexivity. Qed.
+
 Print Assumptions C11_cms_roundtrip.
 Print Assumptions C11_hll_roundtrip.
 Print Assumptions C11_cuckoo_roundtrip.
 Print Assumptions C11_topk_roundtrip_full_heap.
 Print Assumptions C11_topk_partial_heap_refuted.
 Print Assumptions C11_concat_cms_hll.
+Print Assumptions C11_bloom_roundtrip.
+Print Assumptions C11_bitset_roundtrip.
